@@ -49,6 +49,11 @@ def git_oracle(ctx: Ctx, n: int) -> None:
             ctx.bump("git-trees")
             case = {"tree": [l for l in resolvetie.listing(t) if "/.git/" not in l]}
             judge(ctx, "AGREES: the resolver and git disagree about which files are ignored", case, t.root, real, g)
+            # "no influence at all" also when the files are reached through glob arguments
+            offg = set(fstree.real_resolve(dict(ONLY_GIT, respect_gitignore=False), [str(t.root / "**" / "*"), str(t.root / "*")]))
+            if offg != every:
+                ctx.fail("OFF (glob arguments): with respect_gitignore off the listing is not simply every file", case,
+                         {"diff": sorted(x.replace(str(t.root), "") for x in offg ^ every)[:8]})
             off = set(fstree.real_resolve(dict(ONLY_GIT, respect_gitignore=False), [str(t.root)]))
             if off != every:
                 ctx.fail("OFF: with respect_gitignore off the listing is not simply every file", case,
